@@ -23,6 +23,8 @@ type c15Case struct {
 	Shared bool           `json:"shared"` // target shares gNB peer and application filter with earlier sessions
 	Multi  map[int]string `json:"multi,omitempty"`
 	After  int            `json:"after"` // sessions established afterwards
+	// DelOther deletes the other session that shares gNB peer and filter right after the target request
+	DelOther bool `json:"delother,omitempty"`
 }
 
 func c15Session(idx int, peer string, sdf string, twoQ bool) model.Op {
@@ -45,7 +47,28 @@ func c15Session(idx int, peer string, sdf string, twoQ bool) model.Op {
 
 // c15Exclusive checks, over the switch state, that no agent-managed identifier is referenced by two
 // live owners and that every reference resolves to the object its owner asked for.
-func c15Exclusive(run *sim.Runner, snap rig.PSnap) error {
+func c15Exclusive(run *sim.Runner, d *rig.P4d) error {
+	snap := d.Snap()
+	// identifiers whose object was installed at some point: if a live session references one that is
+	// missing now, it was removed (and its id released) while in use
+	everPeer, everApp := map[uint64]bool{}, map[uint64]bool{}
+	for _, w := range d.LogSince(0) {
+		for i, u := range w.Updates {
+			if w.Failed != "" || (i < len(w.Errors) && w.Errors[i] != 0) || u.Type.String() != "INSERT" {
+				continue
+			}
+			if te := u.Entity.GetTableEntry(); te != nil {
+				if e := d.Decode(te); e != nil {
+					switch e.Table {
+					case "tunnel_peers":
+						everPeer[e.Match["tunnel_peer_id"].Value] = true
+					case "applications":
+						everApp[e.Params["app_id"]] = true
+					}
+				}
+			}
+		}
+	}
 	live := run.LiveSessions()
 	byUE := map[uint32]*sim.SessState{}
 	for _, s := range live {
@@ -91,6 +114,9 @@ func c15Exclusive(run *sim.Runner, snap rig.PSnap) error {
 			if id := e.Match["app_id"].Value; id != 0 {
 				ae, ok := appEntry[id]
 				if !ok {
+					if everApp[id] {
+						return fmt.Errorf("%s references application id %d whose applications entry was removed while the session is live (id released while in use)", owner, id)
+					}
 					// the entry was never written because an earlier request failed half-way: a missing
 					// object is the (known) roll-back problem of C04/C05, not an exclusivity violation
 					continue
@@ -144,7 +170,10 @@ func c15Exclusive(run *sim.Runner, snap rig.PSnap) error {
 				if far.HasOHC && far.Action&model.ActFORW != 0 {
 					pe, ok := peerEntry[id]
 					if !ok {
-						continue // see above
+						if everPeer[id] {
+							return fmt.Errorf("session %d references tunnel peer id %d whose tunnel_peers entry was removed while the session is live (id released while in use)", s.Idx, id)
+						}
+						continue // never written: see above
 					}
 					if uint32(pe.Params["dst_addr"]) != model.IP2U(far.Peer) {
 						return fmt.Errorf("session %d references tunnel peer id %d, which now carries %s instead of its gNB %s (id handed out while in use)", s.Idx, id, model.U2IP(uint32(pe.Params["dst_addr"])), far.Peer)
@@ -233,11 +262,19 @@ func runC15(c c15Case, ev *Ev) error {
 	if ev != nil {
 		ev.Extra["writes_"+c.Target] = nWrites
 	}
-	if err := c15Exclusive(run, r.P4.Snap()); err != nil {
+	if err := c15Exclusive(run, r.P4); err != nil {
 		return fmt.Errorf("after %s with failing write %d (%s): %w\n%s", c.Target, c.K, c.Code, err, p4Diag(r, from))
 	}
 	if err := c15Pools(r, fmt.Sprintf("after %s with failing write %d (%s)", c.Target, c.K, c.Code)); err != nil {
 		return err
+	}
+	if c.DelOther {
+		if od := run.Exec(model.Op{Kind: "del", Peer: 0, Seq: 350, Sess: 1, Note: "any"}); od.NoResp {
+			return fmt.Errorf("deletion of the sharing session: no response")
+		}
+		if err := c15Exclusive(run, r.P4); err != nil {
+			return fmt.Errorf("after %s with failing write %d (%s) and deletion of the session sharing its objects: %w\n%s", c.Target, c.K, c.Code, err, p4Diag(r, from))
+		}
 	}
 	// further sessions that would receive any wrongly recycled identifier
 	for i := 0; i < c.After; i++ {
@@ -250,7 +287,7 @@ func runC15(c c15Case, ev *Ev) error {
 		if oo.NoResp {
 			return fmt.Errorf("follow-up establishment %d: no response", i)
 		}
-		if err := c15Exclusive(run, r.P4.Snap()); err != nil {
+		if err := c15Exclusive(run, r.P4); err != nil {
 			return fmt.Errorf("after %s with failing write %d (%s), follow-up session %d (accepted=%v): %w", c.Target, c.K, c.Code, i, oo.Accepted, err)
 		}
 		if err := c15Pools(r, fmt.Sprintf("follow-up session %d after %s/%d/%s", i, c.Target, c.K, c.Code)); err != nil {
@@ -298,9 +335,11 @@ func TestC15Enum(t *testing.T) {
 					if n%nShards != shard {
 						continue
 					}
-					c := c15Case{Target: target, K: k, Code: code, Shared: shared, After: scale(4, 7)}
-					if err := runC15(c, ev); err != nil {
-						failNow(t, ev, "enum", c, err)
+					for _, delOther := range []bool{false, true} {
+						c := c15Case{Target: target, K: k, Code: code, Shared: shared, After: scale(4, 7), DelOther: delOther}
+						if err := runC15(c, ev); err != nil {
+							failNow(t, ev, "enum", c, err)
+						}
 					}
 				}
 			}
@@ -315,7 +354,7 @@ func TestC15Multi(t *testing.T) {
 	ev := newEv("C15")
 	ev.Rule = "random multi-fault plans (1-3 failing Writes with drawn codes) on the same scenario family"
 	runProp(t, ev, "enum", true, func(rt *rapid.T) c15Case {
-		c := c15Case{Target: rapid.SampledFrom([]string{"est", "mod", "del"}).Draw(rt, "target"), Shared: rapid.Bool().Draw(rt, "shared"), After: rapid.IntRange(2, 6).Draw(rt, "after"), Multi: map[int]string{}}
+		c := c15Case{Target: rapid.SampledFrom([]string{"est", "mod", "del"}).Draw(rt, "target"), Shared: rapid.Bool().Draw(rt, "shared"), After: rapid.IntRange(2, 6).Draw(rt, "after"), Multi: map[int]string{}, DelOther: rapid.Bool().Draw(rt, "delother")}
 		for i := 0; i < rapid.IntRange(1, 3).Draw(rt, "nf"); i++ {
 			c.Multi[rapid.IntRange(1, 9).Draw(rt, "k")] = rapid.SampledFrom(c15Codes).Draw(rt, "code")
 		}
